@@ -37,6 +37,7 @@ type Directives struct {
 	Reveal  map[string]bool
 	Target  string // explicit target override: "pkgpath.Func" for external contracts
 	Timeout int
+	Unfold  int // spec functions: recursion is inlined up to this depth (then uninterpreted)
 	Raw     []string
 }
 
@@ -125,6 +126,10 @@ func parseDirectives(cg *ast.CommentGroup) *Directives {
 		case "target":
 			if len(f) > 1 {
 				d.Target = f[1]
+			}
+		case "unfold":
+			if len(f) > 1 {
+				d.Unfold, _ = strconv.Atoi(f[1])
 			}
 		case "timeout":
 			if len(f) > 1 {
